@@ -65,6 +65,7 @@ ForItem(f, key) ==
          [] key.v = "parentloop" -> f.parent
          [] OTHER -> Undef
 
+\* `block.super` is resolved by EvalPath (it renders the parent definition)
 GetItem(obj, key) == IF obj.t = "forloop" THEN ForItem(obj, key) ELSE Item(obj, key)
 
 -----------------------------------------------------------------------------
@@ -83,7 +84,8 @@ TooDeep(st) == ScopeSize(st) > st.cfg.depthlimit
 
 -----------------------------------------------------------------------------
 (* expressions *)
-RECURSIVE Eval(_, _), EvalPath(_, _, _, _), EvalFilters(_, _, _), EvalArgs(_, _, _), EvalSeq(_, _, _)
+RECURSIVE Eval(_, _), EvalPath(_, _, _, _), EvalFilters(_, _, _), EvalArgs(_, _, _), EvalSeq(_, _, _), SuperText(_, _, _),
+          Exec(_, _), ExecBlock(_, _)
 
 \* string literals are template-author text: Markup under auto-escape
 Lit(s, st) == IF st.cfg.autoescape THEN Safe(s) ELSE Str(s)
@@ -211,6 +213,10 @@ EvalPath(segs, i, obj, st) ==
                     [] s.t = "p" -> EvalPath(s.p, 2, Resolve(s.p[1].v, st), st)
        IN IF IsErr(key) THEN key
           ELSE IF UndefErr(key, st, "key") THEN Err("UndefinedError")
+          ELSE IF obj.t = "blockdrop"
+               THEN (IF key.t = "str" /\ key.v = "super"
+                     THEN EvalPath(segs, i + 1, SuperText(obj, st, 8), st)
+                     ELSE EvalPath(segs, i + 1, Undef, st))
           ELSE EvalPath(segs, i + 1, GetItem(obj, key), st)
 
 EvalArgs(args, i, st) == EvalSeq(args, i, st)
@@ -308,7 +314,7 @@ IsBlankNode(n) ==
          /\ (n.else.has => IsBlankSeq(n.else.body))
     [] n.k = "for" -> IsBlankSeq(n.body) /\ (n.else.has => IsBlankSeq(n.else.body))
     [] n.k \in {"with", "liquid"} -> IsBlankSeq(n.body)
-    [] n.k \in {"include", "render", "call", "tablerow"} -> FALSE
+    [] n.k \in {"include", "render", "call", "tablerow", "extends", "block"} -> FALSE
     [] OTHER -> FALSE
 
 -----------------------------------------------------------------------------
@@ -324,9 +330,9 @@ OutText(v, st) == IF st.cfg.autoescape THEN OutStrEsc(v) ELSE OutStr(v)
 SeqGet(pairs, k, dflt) == IF HHas(pairs, k) THEN HGet(pairs, k) ELSE dflt
 
 \* the `name` of a forloop / the stopindex key: "<identifier>-<iterable text>"
-RECURSIVE Exec(_, _), ExecNode(_, _), ExecBlock(_, _), ExecFor(_, _, _, _, _), ExecWhens(_, _, _, _, _), ExecElifs(_, _, _),
-          ExecTemplate(_, _), IncludeIter(_, _, _, _, _, _), RenderIter(_, _, _, _, _, _, _),
-          ExecInclude(_, _), ExecRender(_, _), ExecCall(_, _)
+RECURSIVE ExecNode(_, _), ExecFor(_, _, _, _, _), ExecWhens(_, _, _, _, _), ExecElifs(_, _, _),
+          ExecTemplate(_, _), IncludeIter(_, _, _, _, _, _), RenderIterT(_, _, _, _, _, _, _, _),
+          ExecInclude(_, _), ExecRender(_, _), ExecCall(_, _), ExecExtends(_, _), ExecBlockTag(_, _)
 
 \* a block body: suppressed (executed, output discarded) when blank
 ExecBlock(body, st) ==
@@ -461,6 +467,8 @@ ExecNode(n, st) ==
     [] n.k = "render" -> ExecRender(n, st)
     [] n.k = "macro" -> [st EXCEPT !.macros = HPut(@, n.n, [params |-> n.params, body |-> n.body])]
     [] n.k = "call" -> ExecCall(n, st)
+    [] n.k = "extends" -> ExecExtends(n, st)
+    [] n.k = "block" -> ExecBlockTag(n, st)
     [] n.k = "with" ->
          LET vals == EvalSeq([i \in DOMAIN n.args |-> n.args[i].e], 1, st) IN
          IF IsErr(vals) THEN Fail(st, vals.cls)
@@ -470,6 +478,31 @@ ExecNode(n, st) ==
               IN [s1 EXCEPT !.scopes = st.scopes]
     [] OTHER -> Fail(st, "UNSPEC")          \* construct outside the reference semantics
 
+\* every block tag of a template, outermost first, found through every body
+RECURSIVE BlocksIn(_), ExtendsIn(_)
+Bodies(n) ==
+  CASE n.k \in {"capture", "with", "macro", "block", "liquid"} -> <<n.body>>
+    [] n.k \in {"if", "unless"} -> <<n.body>> \o [j \in DOMAIN n.elifs |-> n.elifs[j].body] \o (IF n.else.has THEN <<n.else.body>> ELSE <<>>)
+    [] n.k = "case" -> [j \in DOMAIN n.whens |-> n.whens[j].body] \o (IF n.else.has THEN <<n.else.body>> ELSE <<>>)
+    [] n.k = "for" -> <<n.body>> \o (IF n.else.has THEN <<n.else.body>> ELSE <<>>)
+    [] OTHER -> <<>>
+RECURSIVE FlatCat(_)
+FlatCat(ss) == IF ss = <<>> THEN <<>> ELSE ss[1] \o FlatCat(Tail(ss))
+BlocksIn(nodes) ==
+  FlatCat([i \in DOMAIN nodes |->
+     (IF nodes[i].k = "block" THEN <<nodes[i]>> ELSE <<>>)
+     \o FlatCat([j \in DOMAIN Bodies(nodes[i]) |-> BlocksIn(Bodies(nodes[i])[j])])])
+ExtendsIn(nodes) ==
+  FlatCat([i \in DOMAIN nodes |->
+     (IF nodes[i].k = "extends" THEN <<nodes[i]>> ELSE <<>>)
+     \o FlatCat([j \in DOMAIN Bodies(nodes[i]) |-> ExtendsIn(Bodies(nodes[i])[j])])])
+
+\* what the parser refuses when a template is loaded: an endblock that names
+\* another block ("" = the template parses)
+ParseErr(nodes) ==
+  IF \E i \in DOMAIN BlocksIn(nodes) : BlocksIn(nodes)[i].endname \notin {"", BlocksIn(nodes)[i].n}
+  THEN "TemplateInheritanceError" ELSE ""
+
 -----------------------------------------------------------------------------
 (* partial templates: include (shared scope), render and macro/call (isolated) *)
 
@@ -477,7 +510,8 @@ ExecNode(n, st) ==
 ExecTemplate(nodes, st) ==
   IF TooDeep(st) THEN Fail(st, "ContextDepthError")
   ELSE LET s1 == Exec(nodes, [st EXCEPT !.scopes = Append(@, <<>>)])
-       IN [s1 EXCEPT !.scopes = st.scopes]
+       \* StopRender (raised by `extends` once the base has rendered) ends this template only
+       IN [s1 EXCEPT !.scopes = st.scopes, !.intr = IF s1.intr = "stop" THEN "" ELSE s1.intr]
 
 \* name under which `with`/`for` binds its value: the alias, else the template
 \* name up to the first "."
@@ -502,7 +536,7 @@ IncludeIter(nodes, key, items, i, nsIdx, st) ==
 Isolated(st, ns, disabled) ==
   [st EXCEPT !.out = "", !.locals = <<>>, !.scopes = <<>>, !.layers = <<ns>> \o st.layers,
              !.counters = <<>>, !.cycles = <<>>, !.stop = <<>>, !.loops = <<>>, !.macros = <<>>,
-             !.disabled = disabled, !.cdepth = st.cdepth + 1, !.intr = ""]
+             !.disabled = disabled, !.cdepth = st.cdepth + 1, !.intr = "", !.stacks = <<>>]
 
 \* back in the caller: only the text written (and a failure) comes back
 Back(st, s2) ==
@@ -511,12 +545,13 @@ Back(st, s2) ==
   ELSE Write(st, s2.out)
 
 \* render ... for: every item renders the partial in a context of its own
-RenderIter(nodes, key, items, i, ns, disabled, st) ==
+RenderIter(nodes, key, items, i, ns, disabled, st) == RenderIterT(nodes, key, items, i, ns, disabled, st, st.tname)
+RenderIterT(nodes, key, items, i, ns, disabled, st, tn) ==
   IF i > Len(items) \/ st.err # "" THEN st
   ELSE LET fl == [t |-> "forloop", name |-> key, length |-> Len(items), index0 |-> i - 1, parent |-> Undef]
            ns2 == HPut(HPut(ns, "forloop", fl), key, items[i])
-           s2 == ExecTemplate(nodes, Isolated(st, ns2, disabled))
-       IN RenderIter(nodes, key, items, i + 1, ns, disabled, Back(st, s2))
+           s2 == ExecTemplate(nodes, [Isolated(st, ns2, disabled) EXCEPT !.tname = tn])
+       IN RenderIterT(nodes, key, items, i + 1, ns, disabled, Back(st, s2), tn)
 
 ExecInclude(n, st) ==
   IF "include" \in st.disabled THEN Fail(st, "DisabledTagError")
@@ -525,11 +560,12 @@ ExecInclude(n, st) ==
   ELSE IF UndefErr(nm, st, "output") THEN Fail(st, "UndefinedError")
   ELSE IF nm.t # "str" THEN Fail(st, "UNSPEC")
   ELSE IF ~HHas(st.tpls, nm.v) THEN Fail(st, "TemplateNotFoundError")
+  ELSE IF ParseErr(HGet(st.tpls, nm.v)) # "" THEN Fail(st, ParseErr(HGet(st.tpls, nm.v)))
   ELSE LET nodes == HGet(st.tpls, nm.v)
            ns == EvalKwargs(n.kwargs, st) IN
   IF IsErr(ns) THEN Fail(st, ns.cls)
   ELSE IF TooDeep(st) THEN Fail(st, "ContextDepthError")
-  ELSE LET s0 == [st EXCEPT !.scopes = Append(@, ns.v)]
+  ELSE LET s0 == [st EXCEPT !.scopes = Append(@, ns.v), !.tname = nm.v]
            idx == Len(s0.scopes)
            done == IF n.mode = "none" THEN ExecTemplate(nodes, s0)
                    ELSE LET val == Eval(n.var, s0) IN
@@ -537,21 +573,22 @@ ExecInclude(n, st) ==
                         ELSE IF val.t \in {"arr", "range"}
                         THEN IncludeIter(nodes, BindKey(n, nm.v), IF val.t = "arr" THEN val.v ELSE RangeSeq(val), 1, idx, s0)
                         ELSE ExecTemplate(nodes, [s0 EXCEPT !.scopes = [@ EXCEPT ![idx] = HPut(@, BindKey(n, nm.v), val)]])
-       IN [done EXCEPT !.scopes = st.scopes]
+       IN [done EXCEPT !.scopes = st.scopes, !.tname = st.tname]
 
 ExecRender(n, st) ==
   IF "render" \in st.disabled THEN Fail(st, "DisabledTagError")
   ELSE IF ~HHas(st.tpls, n.name.v) THEN Fail(st, "TemplateNotFoundError")
+  ELSE IF ParseErr(HGet(st.tpls, n.name.v)) # "" THEN Fail(st, ParseErr(HGet(st.tpls, n.name.v)))
   ELSE LET nodes == HGet(st.tpls, n.name.v)
            ns == EvalKwargs(n.kwargs, st) IN
   IF IsErr(ns) THEN Fail(st, ns.cls)
   ELSE IF st.cdepth > st.cfg.depthlimit THEN Fail(st, "ContextDepthError")
-  ELSE IF n.mode = "none" THEN Back(st, ExecTemplate(nodes, Isolated(st, ns.v, {"include"})))
+  ELSE IF n.mode = "none" THEN Back(st, ExecTemplate(nodes, [Isolated(st, ns.v, {"include"}) EXCEPT !.tname = n.name.v]))
   ELSE LET val == Eval(n.var, st) IN
        IF IsErr(val) THEN Fail(st, val.cls)
        ELSE IF n.mode = "for" /\ val.t \in {"arr", "range"}
-       THEN RenderIter(nodes, BindKey(n, n.name.v), IF val.t = "arr" THEN val.v ELSE RangeSeq(val), 1, ns.v, {"include"}, st)
-       ELSE Back(st, ExecTemplate(nodes, Isolated(st, HPut(ns.v, BindKey(n, n.name.v), val), {"include"})))
+       THEN RenderIterT(nodes, BindKey(n, n.name.v), IF val.t = "arr" THEN val.v ELSE RangeSeq(val), 1, ns.v, {"include"}, st, n.name.v)
+       ELSE Back(st, ExecTemplate(nodes, [Isolated(st, HPut(ns.v, BindKey(n, n.name.v), val), {"include"}) EXCEPT !.tname = n.name.v]))
 
 \* bind call arguments to macro parameters (CallNode.macro_args): positional
 \* first, keywords may override, the rest go to `args` / `kwargs`
@@ -582,14 +619,87 @@ ExecCall(n, st) ==
           ELSE [Write(st, s2.out) EXCEPT !.intr = s2.intr]
 
 -----------------------------------------------------------------------------
+(* template inheritance (tag_reference.md: extends / block; extends_tag.py) *)
+
+\* push the definitions of one template below those of the more derived ones
+PushBlocks(stacks, blocks, i) ==
+  IF i > Len(blocks) THEN stacks
+  ELSE LET b == blocks[i]
+           old == IF HHas(stacks, b.n) THEN HGet(stacks, b.n) ELSE <<>>
+       IN HPut(stacks, b.n, Append(old, [body |-> b.body, required |-> b.required]))
+RECURSIVE PushAll(_, _, _)
+PushAll(stacks, blocks, i) == IF i > Len(blocks) THEN stacks ELSE PushAll(PushBlocks(stacks, blocks, i), blocks, i + 1)
+
+\* walk the chain from template `nm`; result [err, stacks, base]
+RECURSIVE BuildStacks(_, _, _, _)
+BuildStacks(nm, seen, stacks, tpls) ==
+  LET nodes == HGet(tpls, nm)
+      blocks == BlocksIn(nodes)
+      exts == ExtendsIn(nodes)
+      names == [i \in DOMAIN blocks |-> blocks[i].n] IN
+  IF ParseErr(nodes) # "" THEN [err |-> ParseErr(nodes), stacks |-> stacks, base |-> nm]
+  ELSE IF Len(exts) > 1 THEN [err |-> "TemplateInheritanceError", stacks |-> stacks, base |-> nm]
+  ELSE IF \E i, j \in DOMAIN names : i # j /\ names[i] = names[j]
+       THEN [err |-> "TemplateInheritanceError", stacks |-> stacks, base |-> nm]
+  ELSE LET st2 == PushAll(stacks, blocks, 1) IN
+       IF exts = <<>> THEN [err |-> "", stacks |-> st2, base |-> nm]
+       ELSE LET parent == exts[1].name IN
+            IF parent \in seen THEN [err |-> "TemplateInheritanceError", stacks |-> st2, base |-> nm]
+            ELSE IF ~HHas(tpls, parent) THEN [err |-> "TemplateNotFoundError", stacks |-> st2, base |-> nm]
+            ELSE BuildStacks(parent, seen \cup {parent}, st2, tpls)
+
+\* `extends`: resolve the chain, render the root parent with the block stacks in
+\* force, then stop rendering the current template.  The stacks belong to this
+\* chain only: whatever was in force before (an enclosing chain, when a partial
+\* that extends is included from inside a base template) is in force again after.
+ExecExtends(n, st) ==
+  IF "extends" \in st.disabled THEN Fail(st, "DisabledTagError")
+  ELSE LET b == BuildStacks(st.tname, {}, <<>>, st.tpls) IN
+  IF b.err # "" THEN Fail(st, b.err)
+  ELSE LET s1 == ExecTemplate(HGet(st.tpls, b.base), [st EXCEPT !.stacks = b.stacks, !.tname = b.base])
+       IN IF s1.err # "" THEN s1
+          ELSE [s1 EXCEPT !.stacks = st.stacks, !.tname = st.tname, !.intr = "stop"]
+
+BlockDrop(name, level) == [t |-> "blockdrop", name |-> name, level |-> level]
+
+\* text of `block.super`: the next less-derived definition of the block, rendered
+\* with a `block` of its own (fuel bounds the recursion for TLC)
+SuperText(drop, st, fuel) ==
+  LET stack == IF HHas(st.stacks, drop.name) THEN HGet(st.stacks, drop.name) ELSE <<>> IN
+  IF drop.level = 0 \/ drop.level >= Len(stack) \/ fuel = 0 THEN Undef
+  ELSE LET def == stack[drop.level + 1]
+           sc == <<<<"block", BlockDrop(drop.name, drop.level + 1)>>>>
+           s1 == ExecBlock(def.body, [st EXCEPT !.out = "", !.scopes = Append(@, sc)])
+       IN IF s1.err # "" THEN Err(s1.err)
+          ELSE IF st.cfg.autoescape THEN Safe(s1.out) ELSE Str(s1.out)
+
+\* a block tag: the most derived definition in force, or - when the template is
+\* rendered on its own - its own body
+ExecBlockTag(n, st) ==
+  IF "block" \in st.disabled THEN Fail(st, "DisabledTagError")
+  ELSE LET stack == IF HHas(st.stacks, n.n) THEN HGet(st.stacks, n.n) ELSE <<>> IN
+  IF stack = <<>> THEN
+       (IF n.required THEN Fail(st, "RequiredBlockError")
+        ELSE IF TooDeep(st) THEN Fail(st, "ContextDepthError")
+        ELSE LET s1 == ExecBlock(n.body, [st EXCEPT !.scopes = Append(@, <<<<"block", BlockDrop(n.n, 0)>>>>)])
+             IN [s1 EXCEPT !.scopes = st.scopes])
+  ELSE IF stack[1].required THEN Fail(st, "RequiredBlockError")
+  ELSE IF st.cdepth > st.cfg.depthlimit THEN Fail(st, "ContextDepthError")
+  ELSE LET s1 == ExecBlock(stack[1].body, [st EXCEPT !.scopes = Append(@, <<<<"block", BlockDrop(n.n, 1)>>>>),
+                                                      !.cdepth = st.cdepth + 1])
+       IN [s1 EXCEPT !.scopes = st.scopes, !.cdepth = st.cdepth]
+
+-----------------------------------------------------------------------------
 InitState(tpls, data, cfg) ==
   [out |-> "", locals |-> <<>>, scopes |-> <<>>, layers |-> data, counters |-> <<>>,
    cycles |-> <<>>, stop |-> <<>>, loops |-> <<>>, err |-> "", intr |-> "",
-   cfg |-> cfg, tpls |-> tpls, macros |-> <<>>, disabled |-> {}, cdepth |-> 0]
+   cfg |-> cfg, tpls |-> tpls, macros |-> <<>>, disabled |-> {}, cdepth |-> 0,
+   stacks |-> <<>>, tname |-> ""]
 
 \* data: sequence of global layers in priority order, each an ordered hash
 Render(tpls, main, data, cfg) ==
-  LET s == ExecTemplate(HGet(tpls, main), [InitState(tpls, data, cfg) EXCEPT !.scopes = <<>>]) IN
+  LET s == IF ParseErr(HGet(tpls, main)) # "" THEN Fail(InitState(tpls, data, cfg), ParseErr(HGet(tpls, main)))
+           ELSE ExecTemplate(HGet(tpls, main), [InitState(tpls, data, cfg) EXCEPT !.tname = main]) IN
   IF s.err # "" THEN [ok |-> FALSE, err |-> s.err, out |-> ""]
   ELSE IF s.intr # "" THEN [ok |-> FALSE, err |-> "LiquidSyntaxError", out |-> ""]
   ELSE [ok |-> TRUE, err |-> "", out |-> s.out]
